@@ -187,6 +187,15 @@ func templateResolver(bi *BasmInstance) error {
 		}
 	}
 
+	// A section or fragment that something still names is kept: a CP or a fragment instance that did not
+	// go through the template path shares it with the ones that did
+	for _, cp := range bi.cps {
+		delete(sectionRem, cp.GetMeta("romcode"))
+	}
+	for _, fi := range bi.fis {
+		delete(fragmentRem, fi.GetMeta("fragment"))
+	}
+
 	// Remove all the templated sections
 	for sectionName := range sectionRem {
 		delete(bi.sections, sectionName)
